@@ -218,7 +218,11 @@ def write_chunk(out, path, leaf, md, mr, reps, defs, vals, chunk, tc):
             if mr:
                 body += C.levels_v1(preps, mr, page.get("rep_prog", "auto"))
             if md:
-                body += C.levels_v1(pdefs, md, page.get("def_prog", "auto"))
+                if page.get("def_enc", 3) == 4:
+                    # deprecated BIT_PACKED levels: MSB-first, no length prefix
+                    body += C.bitpack_msb(pdefs, C.width_for(md))
+                else:
+                    body += C.levels_v1(pdefs, md, page.get("def_prog", "auto"))
             body += vbytes
             comp = F.compress(body, codec)
             ph = {"type": F.P_DATA, "uncompressed_page_size": len(body), "compressed_page_size": len(comp),
